@@ -136,8 +136,6 @@ def expect_messages(s, tag, before, after, op, extra=None):
     replaced = [m for m in log if type(m) is msg.ComponentReplacedMessage]
     if (added or removed) and not changed_msgs:
         probs.append('components changed but no ComponentsChangedMessage')
-    if not (added or removed) and op != 'update_id' and changed_msgs:
-        probs.append('ComponentsChangedMessage although nothing changed')
     if op == 'update_id':
         if len(replaced) != 1 or replaced[0].old is not extra['old'] or replaced[0].new is not extra['new']:
             probs.append('update_id not announced by exactly one ComponentReplacedMessage(old, new)')
@@ -152,6 +150,8 @@ def expect_messages(s, tag, before, after, op, extra=None):
             probs.append('reorder not announced by one DataReorderComponentMessage carrying the new order')
     elif reorder:
         probs.append('DataReorderComponentMessage although the order did not change')
+    if not (added or removed or order_changed) and op != 'update_id' and changed_msgs:
+        probs.append('ComponentsChangedMessage although nothing changed')
     if op not in ('update_id',) and not op.startswith('reorder') and order_changed:
         probs.append('relative order of surviving components changed: %s -> %s' % ([c.label for c in common_before], [c.label for c in common_after]))
     num = [m for m in log if type(m) is msg.NumericalDataChangedMessage]
